@@ -59,11 +59,17 @@ out += ["", "### 6.2 Independently written breaking changes (`seeded/<id>/`)", "
         "and comes with a demonstration that fails with the change and passes without it. `caught by` = the check that reports a VIOLATION when the patch is applied to `/repo`.", ""]
 seeded = sorted(glob.glob(os.path.join(VERIF, "seeded", "*", "meta.json")))
 if seeded:
-    out += ["| id | property | what it needs to manifest | caught by | result |", "|---|---|---|---|---|"]
-    for m in seeded:
-        d = json.load(open(m))
-        out.append("| %s | %s | %s | %s | %s |" % (os.path.basename(os.path.dirname(m)), d.get("property", ""), d.get("needs", "").replace("|", "\\|"),
-                                               d.get("caught_by", ""), d.get("result", "")))
+    metas = [(os.path.basename(os.path.dirname(m)), json.load(open(m))) for m in seeded]
+    n_hist = sum(1 for _, d in metas if "MISSED" in d.get("history", "").split("second run")[0] and d.get("history"))
+    n_det = sum(1 for _, d in metas if d.get("result") == "DETECTED")
+    n_apply = sum(1 for _, d in metas if "rc=1" in d.get("git_apply_run", ""))
+    out += ["%d changes (three rounds: `seed-`, `seed2-`, `seed3-`), %d detected by the current checks; %d of them were missed by the check as it stood when the change arrived and "
+            "are detected since the check was strengthened (column *history*; never by special-casing the change). "
+            "%d were additionally run the literal way (`git -C /repo apply`, `./check`, `git -C /repo checkout -- .`: `driver/seed.py applyrun`), all with the same verdict." % (len(metas), n_det, n_hist, n_apply), ""]
+    out += ["| id | property | what it needs to manifest | caught by | result | history |", "|---|---|---|---|---|---|"]
+    for name, d in metas:
+        out.append("| %s | %s | %s | %s | %s | %s |" % (name, d.get("property", ""), d.get("needs", "").replace("|", "\\|")[:600],
+                                                    d.get("caught_by", "")[:300].replace("|", "\\|"), d.get("result", ""), d.get("history", "caught at the first run").replace("|", "\\|")))
 else:
     out.append("(none recorded yet)")
 tail = os.path.join(D, "design_tail.md")
